@@ -59,13 +59,17 @@ def passes_event(F, fn, is_event_call, depth=3, _memo=None, _stack=()):
             continue
         if depth > 0:
             gid, rid = callee_ids(t)
+            c = t.get("callee") or {}
+            if c.get("trait") and not rid:
+                continue  # unresolved trait method: an impl may override the body we can see
             g = F.fns.get(rid) or F.fns.get(gid)
             if g is not None and g.id not in _stack and g.id != fn.id:
                 ok, _ = passes_event(F, g, is_event_call, depth - 1, _memo, _stack + (fn.id,))
                 if ok:
                     ev.add(bi)
     path = normal_exit_avoiding(fn, ev)
-    res = (path is None, path)
+    # a function without any event (e.g. one that only ever returns Err) must not count as "passes the event"
+    res = (path is None and bool(ev), path)
     _memo[fn.id] = res
     return res
 
